@@ -11,6 +11,7 @@ import (
 	"sort"
 	"strings"
 
+	"github.com/trustbloc/sidetree-go/pkg/docutil"
 	"github.com/trustbloc/sidetree-go/pkg/versions/1_0/operationparser"
 )
 
@@ -28,6 +29,7 @@ type scCase struct {
 	H        int        `json:"h"`
 	Algs     []int      `json:"algs"`
 	Mod      string     `json:"mod"`
+	Ns       string     `json:"ns"`
 	Expected scExpected `json:"expected"`
 }
 
@@ -161,7 +163,15 @@ func encodeStyled(v interface{}, style string) []byte {
 		}
 	}
 
+	if style == "outer_whitespace" {
+		buf.WriteString("\n \t")
+	}
+
 	enc(v, 0)
+
+	if style == "outer_whitespace" {
+		buf.WriteString(" \r\n")
+	}
 
 	return buf.Bytes()
 }
@@ -238,7 +248,7 @@ func selfcertReplay(args []string) {
 		style := "none"
 
 		switch c.Mod {
-		case "none", "member_order", "whitespace", "escapes":
+		case "none", "member_order", "whitespace", "outer_whitespace", "escapes":
 			style = c.Mod
 		case "sd_deltahash":
 			msd["deltaHash"] = refModelHash(mk(9, scPatches(env, c.Patch, 1)), alg)
@@ -345,7 +355,7 @@ func selfcertReplay(args []string) {
 			Error    string `json:"error,omitempty"`
 		}
 
-		parse := func(b []byte) (o outcome) {
+		parse := func(b []byte, sdOf map[string]interface{}) (o outcome) {
 			defer func() {
 				if r := recover(); r != nil {
 					o = outcome{Error: fmt.Sprint("panic: ", r)}
@@ -355,9 +365,28 @@ func selfcertReplay(args []string) {
 			// (the namespace is an argument of the call: the same parser is asked under another one first)
 			other, oerr := parser.Parse("did:other:net", b)
 
-			op, err := parser.Parse("did:sidetree", b)
+			ns := map[string]string{"plain": "did:sidetree", "trailing_colon": "did:sidetree:", "three_parts": "did:sidetree:test", "empty_part": "did::net",
+				"one_part": "sidetree", "outer_blanks": " did:sidetree "}[c.Ns]
+
+			op, err := parser.Parse(ns, b)
 			if err != nil {
 				return outcome{Error: err.Error()}
+			}
+
+			// (the DID is the namespace, a colon and the suffix, whatever the namespace looks like)
+			if want := ns + ":" + op.UniqueSuffix; op.ID != want {
+				return outcome{Accepted: true, Suffix: op.UniqueSuffix, ID: op.ID + " under the namespace " + fmt.Sprintf("%q", ns)}
+			}
+
+			if sdOf != nil {
+				if id, e := docutil.CalculateID(ns, sdOf, p.MultihashAlgorithms[0]); e != nil || id != op.ID {
+					return outcome{Accepted: true, Suffix: op.UniqueSuffix, ID: fmt.Sprintf("CalculateID(%q, suffix data) = %s %v, the parser says %s", ns, id, e, op.ID)}
+				}
+			}
+
+			if c.Ns != "plain" {
+				// (reported relative to the plain namespace, which the comparisons below use)
+				return outcome{Accepted: true, Suffix: op.UniqueSuffix, ID: "did:sidetree:" + op.UniqueSuffix}
 			}
 
 			if oerr != nil || other.ID != "did:other:net:"+other.UniqueSuffix || other.UniqueSuffix != op.UniqueSuffix {
@@ -367,10 +396,10 @@ func selfcertReplay(args []string) {
 			return outcome{Accepted: true, Suffix: op.UniqueSuffix, ID: op.ID}
 		}
 
-		gb, gm := parse(baseBytes), parse(modBytes)
+		gb, gm := parse(baseBytes, sd), parse(modBytes, msd)
 
 		col.nCases++
-		k := fmt.Sprintf("selfcert:%s:ao=%d:ty=%d:h=%d:algs=%v:%s", c.Patch, c.Ao, c.Ty, c.H, c.Algs, c.Mod)
+		k := fmt.Sprintf("selfcert:%s:ao=%d:ty=%d:h=%d:algs=%v:%s:%s", c.Patch, c.Ao, c.Ty, c.H, c.Algs, c.Mod, c.Ns)
 		col.kind(k)
 		col.sample(map[string]interface{}{"case": c, "base_request": string(baseBytes), "changed_request": string(modBytes)})
 
